@@ -192,7 +192,7 @@ Definition print_nnf_root (root : alit) : list N :=
   end.
 
 Definition nnf_root_extra (root : alit) : N :=
-  match root with ALGate _ _ => 0 | _ => 1 end.
+  match root with ALGate _ _ | ALUndef _ => 0 | _ => 1 end.
 
 Definition print_nnf_body (p : rproblem) : list N :=
   let nv := vs_len (rp_vars p) in
